@@ -12,8 +12,10 @@ import sys
 import tempfile
 from pathlib import Path
 
+from .. import core
 from ..core import LEAN, REPO, VERIF
 from ..gen import gen_hashsites
+from . import c19_sets
 
 LEVEL = 'translation_validation'
 LEVEL_TEXT = ('Seed/history independence is a property of the running interpreter, so the decisive step is differential: the same '
@@ -28,7 +30,7 @@ LEVEL_NOTE = ('Lean kernel; gen_hashsites AST translator with its reviewed typin
 TECHNIQUE = 'Lean theorems over regenerated hash/set-site tables + cross-process PYTHONHASHSEED differential runs'
 RULE = ('corpus + handmade SMILES sampled with the run seed; each evaluated in k fresh interpreters with different '
         'PYTHONHASHSEED; a case = (molecule, output field); non-trivial when the molecule has >= 4 atoms; distinct by (smiles, field)')
-HAS_DRIVER = False
+HAS_DRIVER = True
 TRUSTED = ['gen_hashsites translator and its typing environment', 'Spec/SetSites.lean reviewed list']
 ASSUMPTIONS = ['hash(int), hash(tuple of int), hash(None), hash(bool) are seed independent in CPython 3.12',
                'set iteration order is a deterministic function of element hashes and insertion history']
@@ -72,13 +74,18 @@ def ctx_seed(ctx):
     return getattr(ctx, 'seed', 0)
 
 
-def compare(ctx, smis, seeds):
+def compare(ctx, smis, seeds, set_programs=None):
     from concurrent.futures import ThreadPoolExecutor
+    progfile = None
+    if set_programs is not None:
+        with tempfile.NamedTemporaryFile('w', suffix='.json', delete=False, dir=str(VERIF / 'harness')) as f:
+            json.dump([p for _, p in set_programs], f)
+            progfile = f.name
     with tempfile.NamedTemporaryFile('w', suffix='.json', delete=False, dir=str(VERIF / 'harness')) as f:
-        json.dump({'smiles': smis, 'queries': QUERIES, 'variations': False}, f)
+        json.dump({'smiles': smis, 'queries': QUERIES, 'variations': False, 'set_programs_file': progfile}, f)
         spec = f.name
     with tempfile.NamedTemporaryFile('w', suffix='.json', delete=False, dir=str(VERIF / 'harness')) as f:
-        json.dump({'smiles': smis, 'queries': QUERIES, 'variations': True, 'rng': ctx_seed(ctx)}, f)
+        json.dump({'smiles': smis, 'queries': QUERIES, 'variations': True, 'rng': ctx_seed(ctx), 'set_programs_file': progfile}, f)
         spec_var = f.name
     try:
         with ThreadPoolExecutor(len(seeds)) as ex:
@@ -87,6 +94,12 @@ def compare(ctx, smis, seeds):
     finally:
         os.unlink(spec)
         os.unlink(spec_var)
+        if progfile:
+            os.unlink(progfile)
+    digests = [next((r['set_digests'] for r in res if 'set_digests' in r), None) for res in results]
+    results = [[r for r in res if 'smiles' in r] for res in results]
+    if set_programs is not None:
+        set_model_stream(ctx, set_programs, seeds, digests)
     base = results[0]
     for i, rec in enumerate(base):
         s = rec['smiles']
@@ -127,12 +140,96 @@ def pick(ctx):
     return smis
 
 
+def set_model_stream(ctx, progs, seeds, digests):
+    """histories of set/dict operations: real containers in every worker (one per PYTHONHASHSEED) and in this process vs the
+    Lean model `Py/IntSet.lean` — every pop result, iteration order, membership answer and table size must agree exactly"""
+    import hashlib
+    expected = [' | '.join(c19_sets.execute(p)) for _, p in progs]
+    mine = [hashlib.sha256(e.encode()).hexdigest()[:20] for e in expected]
+    for seed, d in zip(seeds, digests):
+        if d is None:
+            ctx.broke('correspondence', 'set-histories/worker', f'worker PYTHONHASHSEED={seed} returned no digests')
+            continue
+        for (label, p), a, b in zip(progs, mine, d):
+            if a != b:
+                ctx.cov['disagreements_checked'] += 1
+                ctx.broke('correspondence', 'set-histories/seed',
+                          f'observations of a {label} history of int set operations differ between this process and PYTHONHASHSEED={seed}')
+                break
+    if not getattr(ctx, 'build_ok', True):
+        return
+    model = core.run_driver('C19', [c19_sets.render(p) for _, p in progs])
+    nobs = 0
+    for (label, p), e, m in zip(progs, expected, model):
+        kind = label.split('/')[0]
+        k = sum(1 for op in p if op[0] in c19_sets.OBSERVING)
+        nobs += k
+        ctx.count(('set-history', label, hashlib.sha256(e.encode()).hexdigest()[:12]), k >= 3)
+        ctx.dist('set-history:' + kind)
+        if e != m:
+            ctx.cov['disagreements_checked'] += 1
+            eo, mo = e.split(' | '), m.split(' | ')
+            i = next((i for i, (x, y) in enumerate(zip(eo, mo)) if x != y), min(len(eo), len(mo)))
+            ctx.broke('correspondence', 'set-model/' + kind,
+                      f'{label}: observation {i} of {len(eo)}: CPython {eo[i][:120] if i < len(eo) else None!r} '
+                      f'model {mo[i][:120] if i < len(mo) else m[:120]!r}')
+    ctx.cov['set_history_programs'] = len(progs)
+    ctx.cov['set_history_ops'] = sum(len(p) for _, p in progs)
+    ctx.cov['set_history_observations'] = nobs
+    ctx.cov['set_history_max_table'] = max((int(x.split('=')[1].split()[0]) + 1 for e in expected for x in e.split(' | ') if x.startswith('mask=')), default=0)
+
+
+def site_replay_stream(ctx, smis):
+    """the reviewed order-sensitive sites, real source recompiled over a logging wrapper of REAL sets: (1) the traced run
+    returns what the unpatched run returns, (2) the logged container history replayed through the Lean model gives every
+    observed pop result / iteration order"""
+    if not getattr(ctx, 'build_ok', True):
+        return
+    jobs, sites, skipped = [], {}, 0
+    for s in smis:
+        try:
+            t, funcs, real, traced = c19_sets.replay_sites(s)
+        except Exception as e:   # parse errors of edge inputs, or a set API the wrapper does not log
+            skipped += 1
+            ctx.dist('site-replay-skipped:' + type(e).__name__)
+            continue
+        if real != traced:
+            ctx.cov['disagreements_checked'] += 1
+            k = next(k for k in real if real[k] != traced[k])
+            ctx.broke('correspondence', 'site-trace', f'{s}: {k} differs between the unpatched run and the run over logged sets')
+            continue
+        for k, v in t.sites.items():
+            sites[k] = sites.get(k, 0) + v
+        jobs.append((s, t))
+    out = core.run_driver('C19', [c19_sets.render(t.prog) for _, t in jobs]) if jobs else []
+    for (s, t), m in zip(jobs, out):
+        want = ' | '.join(t.obs)
+        npop = sum(1 for op in t.prog if op[0] == 'pop')
+        ctx.count((s, 'site-replay'), npop >= 1 and t.n >= 8)
+        if want != m:
+            ctx.cov['disagreements_checked'] += 1
+            eo, mo = want.split(' | '), m.split(' | ')
+            i = next((i for i, (x, y) in enumerate(zip(eo, mo)) if x != y), min(len(eo), len(mo)))
+            obs_ops = [op for op in t.prog if op[0] in c19_sets.OBSERVING]
+            ctx.broke('correspondence', 'set-model/site-replay',
+                      f'{s}: observation {i} ({obs_ops[i][0] if i < len(obs_ops) else "?"}): CPython {eo[i][:100] if i < len(eo) else None!r} model {mo[i][:100] if i < len(mo) else m[:100]!r}')
+    if smis and not jobs:
+        ctx.broke('correspondence', 'site-replay', f'none of {len(smis)} molecules could be replayed ({skipped} skipped)')
+    ctx.cov['site_replay'] = {'molecules': len(jobs), 'skipped': skipped, 'ops': sum(len(t.prog) for _, t in jobs),
+                              'observations': sum(len(t.obs) for _, t in jobs),
+                              'site_ops': {f'{f}:{o}': n for (f, o), n in sorted(sites.items())},
+                              'histories_lost_to_non_int_or_unknown_operands': sum(len(t.unsupported) for _, t in jobs)}
+
+
 def correspond(ctx):
-    ctx.cov['programs'] = 13  # str, atoms_order, smiles_atoms_order, sssr, connected_components, 4 fingerprint sets, get_mapping, pack, canonicalize, copy
+    ctx.cov['programs'] = 13 + 3  # str, atoms_order, smiles_atoms_order, sssr, connected_components, 4 fingerprint sets, get_mapping, pack, canonicalize, copy; + builtin set, dict key order, site replay
     seeds = [0, 1, 2, ctx.rng.randrange(3, 2 ** 32)] if ctx.quick else \
         [0, 1, 2] + [ctx.rng.randrange(3, 2 ** 32) for _ in range(5)]
     ctx.cov['hash_seeds'] = seeds
-    compare(ctx, pick(ctx), seeds)
+    smis = pick(ctx)
+    progs = c19_sets.programs(ctx.rng, ctx.quick)
+    compare(ctx, smis, seeds, progs)
+    site_replay_stream(ctx, smis if ctx.quick else smis[:len(EDGE) + 300])
 
 
 def search(ctx):
